@@ -6,7 +6,9 @@
     Case layout (integers):
       exact :: dt :: start :: rev :: hs :: nsteps :: nfiles ::
       per file:  nframes :: (time :: u_num :: u_den :: s_num :: s_den)*
-      per step:  v(0) v(1/2) v(1) variables[u] scalar      (each as num :: den)
+      per step:  observed :: v(0) v(1/2) v(1) variables[u] scalar      (each value as num :: den)
+    observed = 0: no particle was alive at that step, nothing could be sampled; the machine is stepped
+    all the same (Forcing.update runs every step) and the comparison resumes at the next observed step.
     exact = 1: values were chosen so that float arithmetic is exact, comparison is [Qeq_bool];
     exact = 0: general floats, comparison is [close 1e-9] (relative to 1 + |a| + |b|). *)
 From Coq Require Import ZArith QArith List Bool.
@@ -49,11 +51,12 @@ Fixpoint check_rows (fuel : nat) (T : tables) (D : disk) (hs rv exact : bool) (s
   | O => match rows with [] => true | _ => false end
   | S f =>
       match rows with
-      | an :: ad :: bn :: bd :: cn :: cd :: un :: ud :: tn :: td :: r =>
+      | ob :: an :: ad :: bn :: bd :: cn :: cd :: un :: ud :: tn :: td :: r =>
           match forcing_update T D hs st step with
           | None => false
           | Some st1 =>
               let s := norm st1 in
+              if ob =? 0 then check_rows f T D hs rv exact s (step + 1) r else
               cmp exact (velocity_frac rv s 0) (mkQ an ad)
               && cmp exact (velocity_frac rv s (1 # 2)) (mkQ bn bd)
               && cmp exact (velocity_frac rv s 1) (mkQ cn cd)
